@@ -148,7 +148,7 @@ def check_mol(a):
 
 
 def check_mol_obj(O, m, ok2d, a, pairs=None):
-    vs, info = [], {'filtered_explicit_h': 0, 'no2d': 0 if ok2d else 1, 'stereo_checked': 0}
+    vs, info = [], {'filtered_explicit_h': 0, 'no2d': 0 if ok2d else 1, 'stereo_checked': 0, 'degenerate_2d': 0}
     m.name = a.get('title') or 'record'
     m.meta.clear()
     m.meta.update(a.get('meta') or {'k': 'v'})
@@ -157,6 +157,9 @@ def check_mol_obj(O, m, ok2d, a, pairs=None):
     if claimed and O.explicit_h_on_stereocentre(m):
         claimed = False
         info['filtered_explicit_h'] = 1
+    if claimed and O.has_labels(m) and O.degenerate_depiction(m):
+        claimed = False
+        info['degenerate_2d'] = 1
     if claimed and O.has_labels(m):
         info['stereo_checked'] = 1
     for pair in (pairs or ([a['pair']] if a.get('pair') else P())):
@@ -210,7 +213,7 @@ def w_mols(items):
     """worker: list of (smiles, form)"""
     env.setup()
     from oracles import o11_records as O
-    n, keys, samples, vs, st = 0, [], [], [], {'filtered_explicit_h': 0, 'no2d': 0, 'stereo_checked': 0, 'unparsed': 0}
+    n, keys, samples, vs, st = 0, [], [], [], {'filtered_explicit_h': 0, 'no2d': 0, 'stereo_checked': 0, 'unparsed': 0, 'degenerate_2d': 0}
     for s, form, *off in items:
         off = off[0] if off else None
         try:
@@ -266,7 +269,7 @@ def cmp_rxn(O, rx, o, claimed, a):
         return out
     for role in ('reactants', 'reagents', 'products'):
         for i, (em, gm) in enumerate(zip(getattr(rx, role), getattr(o, role))):
-            st = claimed and not O.explicit_h_on_stereocentre(em)
+            st = claimed and not O.explicit_h_on_stereocentre(em) and not (O.has_labels(em) and O.degenerate_depiction(em))
             out.extend((f'{f}', f'{role}[{i}] {e}', g) for f, e, g in cmp_mol(O, em, gm, st, a))
     return out
 
@@ -377,8 +380,14 @@ def w_meta(items):
     from oracles import o11_records as O
     n, keys, samples, vs = 0, [], [], []
     for cls, seed in items:
-        r = random.Random(f'{env.SEED}:meta:{cls}:{seed}')
-        meta, title = O.meta_case(r, cls)
+        if cls == 'fixed-punct':    # seed-independent: every punctuation character once in a key, in a title, inside a value
+            import string
+            ch, pos = string.punctuation[seed // 3], seed % 3
+            meta, title = ({f'k{ch}y': 'value'}, 'title') if pos == 0 else ({'key': 'value'}, f't{ch}z') if pos == 1 else ({'key': f'v{ch}w\nx{ch}'}, 'title')
+            cls = 'title-fixed-punct' if pos == 1 else cls
+        else:
+            r = random.Random(f'{env.SEED}:meta:{cls}:{seed}')
+            meta, title = O.meta_case(r, cls)
         for pair, spec in P().items():
             for obj in ('mol', 'rxn'):
                 if obj == 'rxn' and not spec[4]:
@@ -397,6 +406,12 @@ SMALL = ['CCO', 'CC(=O)O', 'C[C@H](O)CC', 'c1ccccc1', 'C/C=C/C', '[NH4+].[Cl-]',
          '[Fe+4]', 'N~[Cu+2]~N', 'CC[N+](C)(C)C', 'OC(=O)[C@H](N)C']
 
 
+# seed-independent multi-record files: every family of crash a damaged record can produce has to be found for every seed
+FIXED_MOLS = ['CCO', '[13CH4].[Fe+4].C[CH2]', 'C[C@H](O)CC', 'N~[Cu+2]~N', 'c1ccccc1', '[C-4].[2H]O[2H]']
+FIXED_RXNS = [(['CCO', 'CC=O'], (1, 1, 0)), (['[13CH4]', '[Fe+4]', 'C[CH2]', 'C[C@H](O)CC'], (2, 1, 1)), (['CC(=O)O', 'CO', 'CC(=O)OC'], (2, 1, 0)),
+              (['C/C=C/C', '[C-4]'], (1, 0, 1)), (['N~[Cu+2]~N', 'N', '[Cu+2]'], (1, 2, 0))]
+
+
 def multi_objects(a):
     """the records of a multi-record file: a['n'] small molecules or reactions, seeded"""
     import random
@@ -405,18 +420,24 @@ def multi_objects(a):
     r = random.Random(f'{a["seed"]}')
     objs = []
     for i in range(a['n']):
+        random.seed(f'{a["seed"]}:{i}')     # clean2d draws from the global generator
         if a['obj'] == 'mol':
-            m = smiles(r.choice(SMALL))
+            m = smiles(FIXED_MOLS[i % len(FIXED_MOLS)] if a.get('fixed') else r.choice(SMALL))
             m.kekule()
             if a.get('coords', True):
                 m.clean2d()
         else:
-            ms = [smiles(r.choice(SMALL)) for _ in range(3)]
+            if a.get('fixed'):
+                sm, cnt = FIXED_RXNS[i % len(FIXED_RXNS)]
+                ms = [smiles(x) for x in sm]
+            else:
+                ms = [smiles(r.choice(SMALL)) for _ in range(3)]
+                ms = ms + ms
+                cnt = r.choice([(1, 1, 0), (1, 1, 1), (2, 1, 0), (1, 2, 0)])
             for x in ms:
                 x.kekule()
                 x.clean2d()
-            cnt = r.choice([(1, 1, 0), (1, 1, 1), (2, 1, 0), (1, 2, 0)])
-            m = O.make_reaction(ms + ms, r, *cnt)
+            m = O.make_reaction(ms, r, *cnt)
         m.name = f'record {i}'
         m.meta['idx'] = str(i)
         m.meta['text'] = f'two lines\nof record {i}'
@@ -462,6 +483,7 @@ def check_damaged(a):
         fam = f'mdl-exc:{where(e)}'
         return [V(fam, fam, f'{pair.split(">")[1]}: {type(e).__name__} escapes iteration over a file whose record {k} of {a["n"]} is damaged '
                             f'({a["kind"]} {a["detail"]}); following records are lost', wit, repr(e))]
+    a['_returned'] = len(got) == len(sigs)
     lost = judge(sigs, got, k)
     if lost is not None:
         fam = f'mdl-lost:{pair.split(">")[1]}:{a["kind"]}'
@@ -511,7 +533,7 @@ def w_multi(items):
     for a in items:
         pair, spec = a['pair'], a['objspec']
         fmt = P()[pair][2]
-        r = random.Random(f'{env.SEED}:{pair}:{spec["seed"]}')
+        r = random.Random('fixed' if spec.get('fixed') else f'{env.SEED}:{pair}:{spec["seed"]}')
         objs = multi_objects(spec)
         try:
             text = write(pair, objs)
@@ -540,6 +562,8 @@ def w_multi(items):
                 v = check_damaged(b)
                 vs.extend(v)
                 n += 1
+                if '_returned' in b:
+                    st['damaged_returned' if b['_returned'] else 'damaged_skipped'] += 1
                 lk = O._kind(recs[k][(1 if fmt == 'rdf' else 0) + det[0]]) if fmt != 'mrv' and kind in ('char', 'insert', 'remove') else \
                     (kind if fmt == 'mrv' else '')
                 keys.append(f'{pair}|{spec["obj"]}|{kind}|{lk}')
@@ -761,7 +785,10 @@ def check_rdkit_block(a):
             info['stereo_blocks'] = 1
             g = D.norm(ms[0][1].copy())
             if str(g) != str(ref):
-                if G.in_gap(ref, cage=True) or any(x.atomic_number == 1 for _, x in ref.atoms()):
+                from oracles import o11_records as O
+                if O.explicit_h_on_stereocentre(ref):
+                    info['filtered_explicit_h'] = 1
+                elif G.in_gap(ref, cage=True):
                     info['gap_hits'] = 1
                 else:
                     vs.append(V('rdkit-block:configuration', f'rdkit-block:configuration:{tag}',
@@ -775,7 +802,7 @@ def w_rdkit(items):
     from rdkit import RDLogger
     RDLogger.DisableLog('rdApp.*')
     from rdkit import Chem
-    n, keys, samples, vs, st = 0, [], [], [], {'gap_hits': 0, 'stereo_blocks': 0, 'rdkit_rejected': 0}
+    n, keys, samples, vs, st = 0, [], [], [], {'gap_hits': 0, 'stereo_blocks': 0, 'rdkit_rejected': 0, 'filtered_explicit_h': 0}
     for s in items:
         for v3, mchg in ((False, False), (True, False), (False, True)):
             v, info = check_rdkit_block({'smiles': s, 'v3000': v3, 'mchg_only': mchg})
@@ -834,12 +861,13 @@ def bounded(run):
     mols += [(s, 'kekule') for s in atl]
     for c in chunks(mols, 12):
         tasks.append((w_mols, c))
-    run.bound(f'molecules: seeded corpus sample {n_corpus} (Kekule form + 2D coordinates from clean2d; first {n_corpus // 3} also in aromatic form), '
-              f'{len(atl)} valence-valid decorated atlas graphs <= 6 nodes, {len(deco)} decorated records (charges -4..+4, isotopes, radicals, coordinate '
+    run.bound(f'molecules: seeded corpus sample {n_corpus} (Kekule form + 2D coordinates from clean2d; first {n_corpus // 3} also in aromatic form; the '
+              f'stereo-bearing ones also with RDKit-depicted coordinates (cis geometry in chains); every 3rd also renumbered: permuted numbers shifted by '
+              f'0/90/400/1500), {len(atl)} valence-valid decorated atlas graphs <= 6 nodes, {len(deco)} decorated records (charges -4..+4, isotopes, radicals, coordinate '
               f'bonds, allenes/cumulenes, up to 12 extra charged components), x 5 writer->reader pairs + mdl_mol')
 
     # 2. reactions
-    n_rx = 60 if quick else 600
+    n_rx = 60 if quick else 1000
     pool = corpus + STEREO + ION[:8] + RAD[:3] + COORD[:3]
     rx = []
     for i in range(n_rx):
@@ -852,15 +880,16 @@ def bounded(run):
               f'(numbers > 99, > 999 for V3000/MRV), x 3 writer->reader pairs + mdl_rxn')
 
     # 3. titles / metadata
-    n_meta = 12 if quick else 120
-    mt = [(cls, i) for cls in O.META_CLASSES + ('title-punct',) for i in range(n_meta)]
+    n_meta = 12 if quick else 200
+    mt = [(cls, i) for cls in O.META_CLASSES + ('title-punct',) for i in range(n_meta)] + [('fixed-punct', i) for i in range(3 * 32)]
     for c in chunks(mt, 8):
         tasks.append((w_meta, c))
     run.bound(f'titles/metadata: {len(O.META_CLASSES) + 1} classes of printable ASCII text x {n_meta} seeded cases x 5 pairs x {{molecule, reaction}}; '
-              f'value lines never start with a tag character of the MDL formats ($, >, M)')
+              f'value lines never start with a tag character of the MDL formats ($, >, M); '
+              f'seed-independent: each of the 32 ASCII punctuation characters once in a key, in a title, inside a value')
 
     # 4. damaged multi-record files
-    n_files = 1 if quick else 4
+    n_files = 1 if quick else 6
     for pair, spec in P().items():
         for obj in ('mol', 'rxn'):
             if obj == 'rxn' and not spec[4]:
@@ -871,6 +900,16 @@ def bounded(run):
                 for k in range(n):
                     cols = 'some' if quick or obj == 'rxn' else 'all'
                     tasks.append((w_multi, [{'pair': pair, 'objspec': os_, 'ks': [k], 'columns': cols}]))
+    for pair, spec in P().items():
+        for obj in ('mol', 'rxn'):
+            if obj == 'rxn' and not spec[4]:
+                continue
+            os_ = {'obj': obj, 'n': 5, 'seed': 'fixed', 'fixed': True}
+            for k in (1, 2, 4):
+                tasks.append((w_multi, [{'pair': pair, 'objspec': os_, 'ks': [k], 'columns': 'fixed' if k == 1 else 'first'}]))
+    run.bound('damaged files, seed-independent part: one fixed 5-record file per pair and record type (isotope / charge +-4 / radical / wedge / coordinate-bond '
+              'records; reactions with reagents); record 1 damaged in every way at every line and column (long reaction records: first 8 lines and the '
+              'first line of each syntactic kind), records 2 and 4 on the first line of each kind')
     run.bound(f'damaged files: {n_files} seeded file(s) of 5-8 records per pair and record type; ONE record damaged at every position: truncated / beheaded at '
               f'every line, each line deleted / duplicated / swapped with the next, one character replaced by each of "X", " ", "9", "-" at every column '
               f'and a blank inserted / a character removed at every third column of {"one line of each syntactic kind" if quick else "every line (molecule files)"}; '
@@ -912,19 +951,29 @@ def bounded(run):
     for c in chunks(rk, 12):
         tasks.append((w_rdkit, c))
     run.bound(f'foreign records: {len(rk)} corpus / decorated molecules written by RDKit (MolToMolBlock V2000 and forceV3000, Kekule form, RDKit 2D '
-              f'coordinates and wedges), read by mdl_mol and SDFRead')
+              f'coordinates and wedges; V2000 additionally with the charge column blanked so that charges come from M  CHG only; records with 9-17 charged '
+              f'atoms, isotopes, radicals), read by mdl_mol and SDFRead; reference = RDKit\'s own reading of the block')
 
     run.assume('RDKit (MolFromSmiles, MolToMolBlock, Compute2DCoords, wedging) is a trusted external writer of valid MDL records',
                'the 2D layout of clean2d() is a valid depiction (distinct atom positions); molecules for which clean2d() fails are compared without configuration',
                'the expected label of a stereogenic double bond the written molecule leaves unlabelled is the one its 2D coordinates define '
                '(readers are opened with calc_cis_trans=True; MDL/MRV files written by these writers carry no "unspecified" mark); those labels are '
                'computed by calculate_cis_trans_from_2d on a copy of the written molecule',
+               'a file carries double-bond configuration through coordinates only: a cis/trans label that contradicts the layout (clean2d ignores labels) is '
+               'flipped before writing so that the written object is self-consistent (counted: ct_relabelled_from_2d); consistency and every label read back '
+               'are judged by an independent plane-geometry test on the 4-decimal coordinates',
+               'a wedge judged against collinear atoms (T-shaped centre with the wedge on the stem, allene substituent on the axis; signed volume 0 up '
+               'to rounding noise on the 4-decimal coordinates) does not determine a configuration: such molecules are compared without configuration and '
+               'counted (degenerate_2d)',
                'per-centre signs are compared after translation to the numbering-canonical neighbour order (stored signs refer to bond insertion order)',
                'metadata and titles are compared modulo the readers\' per-line strip and the dropping of blank lines; chython_* log keys ignored',
                'domain filter (property text): molecules with an explicit hydrogen on a labelled stereocentre are compared without configuration and counted',
                'a damaged record keeps its delimiter; MRV damage keeps the XML well-formed (a file that is not XML cannot be split into records)',
                'constitutional-symmetry oracle oracles.iso.orbits for the documented canonical-string gaps (RDKit-written part only)')
 
+    only = getattr(run, 'only', None)      # development: bin/check C11 --only mols,rxns,meta,multi,index,testfiles,rdkit
+    if only:
+        tasks = [t for t in tasks if t[0].__name__[2:] in only]
     results = pmap(_dispatch, tasks)
     fam = {}
     for (fn, _), (n, keys, samples, vs, st) in zip(tasks, results):
